@@ -41,6 +41,7 @@ RULE_TEXT = (
     'Non-trivial = the run crossed the hand-over (MoveToDjangoMigrations '
     'pending) or ran on an app already moved; distinct = digest of the '
     'configuration tuple.')
+RULE_TEXT += ' 30% of the histories carry a second evolution-era model that a remaining migration deletes.'
 ASSUMPTIONS = [
     'on a virgin database the tables can only come from the migrations '
     'themselves, so "without being executed" is judged only when the '
